@@ -7,6 +7,7 @@
   list is a possible behaviour (every step enabled).
 -/
 import FileD.Lemmas.Batcher
+import FileD.Lemmas.BatcherPool
 namespace FileD.PropsC08
 open FileD FileD.Batcher
 
@@ -323,6 +324,38 @@ theorem child_parent_skipped (c : Cfg) (ops : List Op) (s : State) (hr : Run c o
 
 example : ∃ s, Run cfg2 [.add e3 0 0, .add e3 1 1, .sealB] s ∧ step? cfg2 s (.sendStart 0) = none ∧
     (step? cfg2 s (.commit 0)).map (·.committed) = some [e3, e3] := ⟨_, rfl, by decide, by decide⟩
+
+/-! ## batch pool -/
+
+/-- **batch_pool_conserved.** The `Workers` batches made by `NewBatcher` are conserved in every
+    reachable state, for every interleaving: each is in `freeBatches`, is the batch being filled,
+    or is sealed and not yet committed. -/
+theorem batch_pool_conserved (c : Cfg) (ops : List Op) (s : State) (hr : Run c ops s) :
+    s.free + (if s.cur.isSome then 1 else 0) + s.full.length = c.workers :=
+  reachable_pool c s (run_reachable hr)
+
+/-- **send_under_lock_never_blocks.** At the moment a batch is sealed (the channel send of the
+    repaired `trySendBatchAndUnlock`, done while `b.mu` is held) fewer than `Workers` batches are
+    sealed and uncommitted, so `fullBatches` (capacity `Workers`) has room: the send that the
+    repair of the Stop race moved under the lock cannot block and so cannot deadlock `b.mu`. -/
+theorem send_under_lock_never_blocks (c : Cfg) (ops : List Op) (s s' : State) (hr : Run c ops s)
+    (hs : step? c s .sealB = some s') : s.full.length < c.workers ∧ s'.full.length ≤ c.workers := by
+  have h := reachable_pool c s (run_reachable hr)
+  have h' := reachable_pool c s' (run_reachable (ops := ops ++ [.sealB]) (by
+    show TS.run (step? c) (init c) (ops ++ [.sealB]) = some s'
+    rw [TS.run_append, show TS.run (step? c) (init c) ops = some s from hr]
+    simp [TS.run, hs]))
+  unfold PoolInv at h h'
+  simp only [step?] at hs
+  split at hs; · simp at hs
+  split at hs; · simp at hs
+  rename_i b hc
+  simp [curCount, hc] at h
+  exact ⟨by omega, by omega⟩
+
+example : ∃ s, Run cfg2 [.add e1 0 0, .add e2 1 1, .sealB, .add e3 2 2, .add e4 3 3] s ∧
+    s.free = 0 ∧ s.cur.isSome ∧ s.full.length = 1 ∧ (step? cfg2 s .sealB).isSome :=
+  ⟨_, rfl, by decide, by decide, by decide, by decide⟩
 
 /-! ## Stop -/
 
